@@ -601,6 +601,40 @@ def run_prop(prop: str, tier: str, replay=None) -> int:
                     # the theorem says the denotations are equal; the driver computed different ones: the driver contradicts itself
                     viol.append({"what": ["internal inconsistency: layout-rel accepts the pair (theorem layout_rel_sound) but the driver's two denotations differ"],
                                  "scope": "layout-rel", "ident": ident, "emitted": t_})
+    # ---- C12: the heap model (Model/Heap.lean) run by Lean on every accepted text.  Theorem linear_no_double_free_no_leak says: an
+    # empty report of the counting checker + distinct names => every node is consumed exactly once; the model's own verdict is
+    # computed independently here and must agree (a text the checker accepts whose model run frees twice or leaks would
+    # contradict the theorem: reported as an internal inconsistency)
+    heap = {"texts": 0, "nodes": 0, "no_double_free_and_no_leak": 0, "double_free": 0, "leak": 0, "unparsed": 0}
+    if prop == "C12":
+        hl = []
+        for (name, part), reps in by_part.items():
+            f0 = textcheck.FORMATS[0]
+            if f0 in reps:
+                hl.append((f"{name} part {part}", per_fmt[f0][name]["rzil"][part], reps[f0]))
+        for it in items:
+            if it["status"] == "ok":
+                f0 = textcheck.FORMATS[0]
+                if f0 in it.get("text", {}):
+                    hl.append((it["src"], it["text"][f0], it["report"][f0]))
+        from common import Driver
+        hreps = Driver().run([sx(["heap", Q(t_)]) for _, t_, _ in hl]) if hl else []
+        for (ident, t_, rep), hr in zip(hl, hreps):
+            d = parse_sx(hr)
+            fields = {x[0]: x[1:] for x in d[1:] if isinstance(x, list) and x}
+            heap["texts"] += 1
+            if d[0] != "heap" or fields.get("parsed") != ["1"]:
+                heap["unparsed"] += 1
+                continue
+            heap["nodes"] += int(fields["nodes"][0])
+            ndf, nl = fields["no-double-free"] == ["1"], fields["no-leak"] == ["1"]
+            heap["no_double_free_and_no_leak"] += (ndf and nl)
+            heap["double_free"] += (not ndf)
+            heap["leak"] += (not nl)
+            checker_clean = not [p_ for p_ in rep.get("c12", []) if not p_.startswith("borrowed parameter")]
+            if checker_clean and fields["distinct"] == ["1"] and not (ndf and nl):
+                viol.append({"what": [f"internal inconsistency: the counting checker accepts the text but the heap model reports double free {fields.get('double')} / leak {fields.get('leaked')} (contradicts theorem linear_no_double_free_no_leak)"],
+                             "scope": "heap-model", "ident": ident, "emitted": t_})
     proto_checked = 0
     if prop == "C12":
         proto_checked = read_protocol(viol)
@@ -637,7 +671,7 @@ def run_prop(prop: str, tier: str, replay=None) -> int:
         "exhaustive": tier == "thorough",
         "corpus": cstats,
         "generated": gstats,
-        "companion_records_checked": rec_checked, "api_sub_routines_checked": api_subs, "layout_relation (C16)": layout, "programs_under_other_inlining_settings": inl, "read_protocol_objects": proto_checked,
+        "companion_records_checked": rec_checked, "api_sub_routines_checked": api_subs, "layout_relation (C16)": layout, "heap_model (C12)": heap, "programs_under_other_inlining_settings": inl, "read_protocol_objects": proto_checked,
         "known_finding_hits": known_hit,
         "violations_total": len(viol),
         "samples": samples,
